@@ -29,6 +29,7 @@ from ..core import Machinery, frac, close, run_tlc, validate_trace
 from .. import fx_retrieval as fx
 from .. import fx_like as fl
 from .. import fx_likeobs as fo
+from .. import fx_likegrid as fg
 
 SAMPLERS = ('nestle', 'multinest', 'polychord')
 REL = 1e-9
@@ -264,6 +265,75 @@ def make_sim_cfg(layout, fault, nanfault, depth):
 
 
 # ----------------------------------------------------------------------------------------------
+# binding A: observation layouts on a native grid much wider than the observation (spec/MC_LikeGrid.tla)
+# ----------------------------------------------------------------------------------------------
+
+def grid_class(v):
+    return 'grid:%s%s%s' % (v['fam'], ':widths>2x' if v['growth2'] else '', ':gaps' if v['gap'] else '')
+
+
+def run_grid_vectors(ctx, cfg):
+    """Design check of the clipping contract + exported vectors: every layout TLC generates is realised as a real
+    BaseSpectrum (-> real FluxBinner) over a real SimpleForwardModel whose native grid is the specification's
+    (wider than every observation), and the callback of each wrapper is compared with the chi2 terms TLC computed
+    from the FULL native grid by the overlap-weighted mean."""
+    res = ctx.check_spec('exhaustive-likegrid', 'MC_LikeGrid', cfg)
+    vecs = res.tagged('VEC')
+    if len(vecs) < 60:
+        raise Machinery('MC_LikeGrid exported %d vectors only' % len(vecs))
+    ctx.add_sample(dict(grid_vector={k: vecs[0][k] for k in ('fam', 'oc', 'ow2', 'a', 'data', 'sig', 'z2', 'lo', 'hi')}))
+    tmpdir = tempfile.mkdtemp(prefix='c06_')
+    model = fg.make_grid_toy(vecs[0]['nat'], vecs[0]['c0'], vecs[0]['c1'])
+    nnat = len(vecs[0]['nat'])
+    fams, clipped, unjudged = {}, 0, 0
+    try:
+        for i, v in enumerate(vecs):
+            fams.setdefault(v['fam'], [0, 0])[0 if v['inside'] else 1] += 1
+            if not v['inside']:
+                unjudged += 1            # the specification's window does not meet the contract there (L-C13b of C13)
+                continue
+            clipped += (v['lo'] > 1 or v['hi'] < nnat)
+            sampler = SAMPLERS[i % 3]
+            # bins in ascending wavenumber, as every stock observation class reports them (FluxBinner returns its
+            # bins sorted; ArraySpectrum / ObservedSpectrum sort their rows accordingly)
+            wn = fg.lattice_wn(v['oc'])
+            width = fg.WNSTEP * np.array(v['ow2'], dtype=float) / 2.0
+            obs = fx.make_wn_obs(wn, width, np.array(v['data'], dtype=float), np.array(v['sig'], dtype=float))
+            opt = make_optimizer(sampler, obs, model, tmpdir)
+            for name, par in list(model.fittingParameters.items()):
+                if par[5]:
+                    opt.disable_fit(name)
+            opt.enable_fit('a')
+            opt.compile_params()
+            b = Bound(sampler, opt, tmpdir)
+            cls = '%s:%s' % (sampler, grid_class(v))
+            vec = dict(kind='grid', sampler=sampler, cfg=cfg)
+            h = sum((frac(t) for t in v['z2']), Fraction(0)) / 2
+            exp = fx.gauss_const(v['sig']) - float(h)
+            try:
+                ret = float(b.loglike([float(v['a'])]))
+            except Exception as e:   # noqa
+                ctx.verdict('never_raises', False, cls=cls, detail='loglike raised %r' % (e,), vector=vec)
+                continue
+            ok = math.isfinite(ret) and close(ret, exp, rel=REL, abs_=1e-12)
+            ctx.verdict('binned_on_full_grid', ok, cls=cls, detail='layout %s centres %r 2*widths %r a=%s: got %r, '
+                        'expected %r (chi2/2 = %s from the full native grid)' % (v['fam'], v['oc'], v['ow2'], v['a'],
+                                                                               ret, exp, h), vector=vec)
+            ctx.traces += 1
+    finally:
+        shutil.rmtree(tmpdir, ignore_errors=True)
+    ctx.note('grid layouts: %d vectors, %d judged (%d of them with a clip that removes native points), %d outside the '
+             'contract of the specified window; per family (inside, outside): %r' %
+             (len(vecs), len(vecs) - unjudged, clipped, unjudged, fams))
+    for fam, (nin, nout) in fams.items():
+        if nin < 2 * nout or nin < 4:
+            raise Machinery('layout family %s: only %d of %d layouts are judged' % (fam, nin, nin + nout))
+    if clipped < (len(vecs) - unjudged) // 2:
+        raise Machinery('vacuous: the clip removes native points in %d of %d judged layouts only' %
+                        (clipped, len(vecs) - unjudged))
+
+
+# ----------------------------------------------------------------------------------------------
 # binding B: real models
 # ----------------------------------------------------------------------------------------------
 
@@ -271,7 +341,15 @@ EXC_NAMES = {'InvalidChemistryException': 'InvalidChemistry', 'InvalidTemperatur
 
 
 class RealWorld(object):
-    """One optimizer over a real TransmissionModel + an oracle twin."""
+    """One optimizer over a real TransmissionModel + an oracle twin.
+
+    kind "isothermal" / "npoint": H2O + CH4 on a 41-point native grid that barely exceeds the observation;
+    kind "wide": CO2 + CO on an 800-point constant-R native grid (0.3 - 25 micron) MUCH wider than the observation,
+    observation layouts of the classes of fx_likegrid (constant resolving power over 0.4 - 10 micron, gaps, broad
+    photometric bins next to narrow ones, two instruments); oracle = the twin evaluated on its FULL native grid and
+    binned by the independent overlap-weighted mean.
+    obspar: the observation is an OffsetScaleSpectrum and one or both of its parameters are fitted, so that the
+    data side of chi2 changes with the parameter vector."""
 
     CANDS = {
         'isothermal': [('planet_radius', 'lin', (0.75, 1.25)), ('T', 'lin', (500.0, 2000.0)),
@@ -279,44 +357,90 @@ class RealWorld(object):
         'npoint': [('planet_radius', 'lin', (0.75, 1.25)), ('T_surface', 'lin', (1000.0, 2000.0)),
                    ('T_point1', 'lin', (500.0, 2500.0)), ('T_top', 'lin', (500.0, 1500.0)),
                    ('P_point1', 'log', (0.0, 7.0)), ('H2O', 'log', (-8.0, 1.0))],
+        'wide': [('planet_radius', 'lin', (0.75, 1.25)), ('T', 'lin', (500.0, 2000.0)),
+                 ('CO2', 'log', (-8.0, 1.0)), ('CO', 'log', (-8.0, 0.0))],
     }
+    # parameters of the observation (OffsetScaleSpectrum): offset in ppm, scale; always given linear-space priors
+    OBS_CANDS = [('obs_offset', 'lin', (-200.0, 200.0)), ('obs_scale', 'lin', (0.75, 1.25))]
+    OBS_INIT = {'obs_offset': 0.0, 'obs_scale': 1.0}
+    OBS_ROLE = {'obs_offset': 'offset', 'obs_scale': 'scale'}
+    DUNIT = 1e-7                     # unit of the base data of an observation with parameters (integers d0)
+    GASES = ('H2O', 'CH4', 'CO2', 'CO')
     # prior-space ranges for a prior given through set_prior in the OTHER space than the parameter's mode
     # (log10 ranges for linear-mode parameters, linear ranges for the log-mode mixing ratios)
     CROSS = {'planet_radius': (-0.125, 0.125), 'T': (2.75, 3.25), 'T_surface': (3.0, 3.25), 'T_point1': (2.75, 3.375),
-             'T_top': (2.75, 3.125), 'H2O': (0.125, 1.125), 'CH4': (0.125, 0.875)}
+             'T_top': (2.75, 3.125), 'H2O': (0.125, 1.125), 'CH4': (0.125, 0.875), 'CO2': (0.125, 1.125),
+             'CO': (0.125, 0.875)}
     TRACKED = {'isothermal': ['planet_radius', 'T', 'H2O', 'CH4', 'planet_mass'],
-               'npoint': ['planet_radius', 'T_surface', 'T_point1', 'T_top', 'P_point1', 'H2O', 'CH4', 'planet_mass']}
+               'npoint': ['planet_radius', 'T_surface', 'T_point1', 'T_top', 'P_point1', 'H2O', 'CH4', 'planet_mass'],
+               'wide': ['planet_radius', 'T', 'CO2', 'CO', 'planet_mass']}
 
-    def __init__(self, rng, sampler, tmpdir):
+    def __init__(self, rng, sampler, tmpdir, wide=None):
         from taurex.core.priors import Uniform, LogUniform, Gaussian, LogGaussian
+        from taurex.data.spectrum.array import ArraySpectrum
         self.rng = rng
         self.sampler = sampler
-        self.kind = rng.choice(['isothermal', 'isothermal', 'npoint'])
-        self.model = fx.make_transmission(self.kind)
-        self.twin = fx.make_transmission(self.kind)
+        self.kind = 'wide' if wide else rng.choice(['isothermal', 'isothermal', 'npoint'])
+        self.layout = wide or 'narrow'
+        if self.kind == 'wide':
+            self.model = fg.make_wide_transmission()
+            self.twin = fg.make_wide_transmission()
+        else:
+            self.model = fx.make_transmission(self.kind)
+            self.twin = fx.make_transmission(self.kind)
         if self.kind == 'npoint':
             for m in (self.model, self.twin):
                 m._temperature_profile._limit_slope = 450.0
         self.fault = fl.nan_contribution_class()()
         self.model.add_contribution(self.fault)
         self.model.build()
-        # observation: random bin layout, error bars; data = twin at a reference point + offsets
-        nb = rng.randint(3, 8)
-        centres = sorted(rng.sample(range(1060, 1941, 20), nb))
-        widths = [rng.choice([20.0, 40.0, 60.0, 100.0, 150.0]) for _ in centres]
+        self.obspar = rng.random() < 0.4
+        # observation: bin layout (rows of an ArraySpectrum: wavelength, data, error, wavelength width)
+        if self.kind == 'wide':
+            wl, wlw = fg.wide_layout(rng, wide)
+        else:
+            nb = rng.randint(3, 8)
+            centres = np.array(sorted(rng.sample(range(1060, 1941, 20), nb)), dtype=float)
+            widths = np.array([rng.choice([20.0, 40.0, 60.0, 100.0, 150.0]) for _ in centres])
+            wl = 10000.0 / centres
+            wlw = 10000.0 / (centres - widths / 2) - 10000.0 / (centres + widths / 2)
+        probe = ArraySpectrum(np.stack([wl, np.zeros_like(wl), np.ones_like(wl), wlw], axis=1))
+        wl, wlw = probe.rawData[:, 0].copy(), probe.rawData[:, 3].copy()          # in the observation's own order
+        self.bin_lo = probe.wavenumberGrid - probe.binWidths / 2                  # the bins the observation reports
+        self.bin_hi = probe.wavenumberGrid + probe.binWidths / 2
+        nb = len(wl)
+        # error bars, data = twin at a reference point + offsets
         g, s, _, _ = self.twin.model()
-        from taurex.binning import FluxBinner
-        ref = FluxBinner(np.array(centres, dtype=float), np.array(widths, dtype=float)).bindown(g, s)[1]
-        err = np.array([rng.choice([4e-5, 8e-5, 1.6e-4, 3e-4]) for _ in centres])
-        data = ref + err * np.array([rng.randint(-2, 2) for _ in centres])
-        self.obs = fx.make_array_obs(centres, widths, data, err)
-        self.twin_obs = fx.make_array_obs(centres, widths, data, err)
+        if self.kind == 'wide':
+            ref = fg.overlap_mean(g, s, self.bin_lo, self.bin_hi)
+            if not np.all(np.isfinite(ref)):
+                raise Machinery('wide layout has a bin outside the native grid')
+            nat_lo, nat_hi = fg.native_bins(g)
+            if not (self.bin_lo.min() - g.min() > 20 * (nat_hi[0] - nat_lo[0]) and
+                    g.max() - self.bin_hi.max() > 20 * (nat_hi[-1] - nat_lo[-1])):
+                raise Machinery('the native grid is not much wider than the observation')
+        else:
+            from taurex.binning import FluxBinner
+            ref = FluxBinner(probe.wavenumberGrid, probe.binWidths).bindown(g, s)[1]
+        err = np.array([rng.choice([4e-5, 8e-5, 1.6e-4, 3e-4]) for _ in range(nb)])
+        data = ref + err * np.array([rng.randint(-2, 2) for _ in range(nb)])
+        self.d0 = []
+        if self.obspar:
+            self.d0 = [int(round(float(v) / self.DUNIT)) for v in data]
+            data = np.array(self.d0, dtype=float) * self.DUNIT
+        arr = np.stack([wl, data, err, wlw], axis=1)
+        mk = fo.offset_scale_spectrum_class() if self.obspar else ArraySpectrum
+        self.obs = mk(arr.copy())
+        self.twin_obs = mk(arr.copy())
         self.twin_binner = self.twin_obs.create_binner()
         self.C = fx.gauss_const(self.twin_obs.errorBar)
-        # fitted subset (declaration order is the model's, not ours) and priors
+        # fitted subset (declaration order is the model's then the observation's, not ours) and priors
         cands = self.CANDS[self.kind]
         k = rng.randint(1, min(4, len(cands)))
         chosen = rng.sample(cands, k)
+        if self.obspar:
+            chosen = chosen[:3] + rng.choice([self.OBS_CANDS[:1], self.OBS_CANDS[1:], self.OBS_CANDS])
+            rng.shuffle(chosen)
         self.opt = make_optimizer(sampler, self.obs, self.model, tmpdir)
         self.pri = {}
         for name, par in list(self.model.fittingParameters.items()):
@@ -363,11 +487,35 @@ class RealWorld(object):
                     self.pri[name] = ('gauss', mean, std)
         self.opt.compile_params()
         self.fit = [p[0] for p in self.opt.fitting_parameters]      # the optimizer's order
-        self.space = {n: s for n, s, _ in cands}               # the parameter's mode
+        self.space = {n: s for n, s, _ in cands + self.OBS_CANDS}    # the parameter's mode
         self.cross = [n for n in self.fit if self.xspace[n] != self.space[n]]
         self.unf = [n for n in self.TRACKED[self.kind] if n not in self.fit]
-        self.unf_space = {n: ('log' if self.model.fittingParameters[n][4] == 'log' else 'lin') for n in self.unf}
+        if self.obspar:
+            self.unf += [n for n, _, _ in self.OBS_CANDS if n not in self.fit]
+        self.unf_space = {n: ('log' if self.entry(n)[4] == 'log' else 'lin') for n in self.unf}
+        nmodel = sum(1 for n in self.fit if n not in self.OBS_ROLE)
+        if any(n in self.OBS_ROLE for n in self.fit[:nmodel]):
+            raise Machinery('fixture: observation parameters are expected after the model parameters')
         self.bound = Bound(sampler, self.opt, tmpdir)
+
+    def entry(self, name):
+        return (self.obs if name in self.OBS_ROLE else self.model).fittingParameters[name]
+
+    def roles(self):
+        """Per fitted position: "model", or the role of the observation parameter."""
+        return [self.OBS_ROLE.get(n, 'model') for n in self.fit]
+
+    def data_side(self, x):
+        """The data side of chi2 for the vector x by the rule of the trace specification, in exact integers:
+        dat8[b] = d0[b] * (8 scale) + 10 * (8 offset[ppm])   (units DUNIT / 8; scale and offset on the 1/8 grid)."""
+        val = dict(self.OBS_INIT)
+        for n, xi in zip(self.fit, x):
+            if n in val:
+                val[n] = xi
+        s8, o8 = val['obs_scale'] * 8, val['obs_offset'] * 8
+        if s8 != int(s8) or o8 != int(o8):
+            raise Machinery('observation parameters off the 1/8 grid: %r' % (val,))
+        return [d * int(s8) + 10 * int(o8) for d in self.d0]
 
     def grid_point(self, lo, hi):
         n = int(round((hi - lo) * 8))
@@ -379,13 +527,13 @@ class RealWorld(object):
     def par_scaled(self):
         return [[int(round(self.pri[n][1] * S)), int(round(self.pri[n][2] * S))] for n in self.fit]
 
-    def project(self, model):
+    def project(self, model, obs):
         out = []
         for n in self.fit:
-            v = float(model[n])
+            v = float((obs if n in self.OBS_ROLE else model)[n])
             out.append(v if self.pri[n][0] in ('uniform', 'gauss') else safe_log10(v))
         for n in self.unf:
-            v = float(model[n])
+            v = float((obs if n in self.OBS_ROLE else model)[n])
             out.append(v if self.unf_space[n] == 'lin' else safe_log10(v))
         return [scaled(v) for v in out]
 
@@ -395,7 +543,7 @@ class RealWorld(object):
             lo, hi = self.range[n]
             r = self.rng.random()
             sp = self.xspace[n]                                            # space of the prior = of x
-            if n in ('H2O', 'CH4') and r < 0.25:                           # mixing ratio near / above unity
+            if n in self.GASES and r < 0.25:                           # mixing ratio near / above unity
                 x.append(self.rng.choice([0.0, 0.125, -0.125, 0.5] if sp == 'log' else [1.0, 1.125, 0.875, 1.5]))
             elif n == 'P_point1' and r < 0.2:
                 x.append(self.rng.choice([6.0, 6.5, -1.0, -1.5]))          # inverted pressure nodes
@@ -413,23 +561,39 @@ class RealWorld(object):
         outcome = "ok" | exception class | "NaNAll" (no bin comparable) | "NaNSome"."""
         from taurex.exceptions import InvalidModelException
         for n, xi in zip(self.fit, x):
-            self.twin[n] = xi if self.pri[n][0] in ('uniform', 'gauss') else 10.0 ** xi
+            (self.twin_obs if n in self.OBS_ROLE else self.twin)[n] = \
+                xi if self.pri[n][0] in ('uniform', 'gauss') else 10.0 ** xi
+        # the data side: the observation as the vector of THIS call describes it (exact rule of the specification)
+        data = [float(d) for d in self.twin_obs.spectrum]
+        if self.obspar:
+            ruled = [d8 / 8.0 * self.DUNIT for d8 in self.data_side(x)]
+            if not all(close(a, b, rel=1e-12, abs_=1e-15) for a, b in zip(data, ruled)):
+                raise Machinery('fixture: OffsetScaleSpectrum does not follow the data rule of the specification')
+            data = ruled
         if inject == 'raise':
             return 'InvalidModel', None, None
         try:
-            g, s, _, _ = self.twin.model(wngrid=self.twin_obs.wavenumberGrid)
-            s = np.array(s, dtype=float)
-            if inject == 'NaNAll':
-                s[:] = np.nan
-            elif inject == 'NaNSome':
-                s[len(s) // 2:] = np.nan
-            binned = self.twin_binner.bindown(g, s)[1]
+            if self.kind == 'wide':
+                # the FULL native grid, binned by the independent overlap-weighted mean
+                g, s, _, _ = self.twin.model()
+                s = np.array(s, dtype=float)
+                if inject == 'NaNAll':
+                    s[:] = np.nan
+                binned = fg.overlap_mean(g, s, self.bin_lo, self.bin_hi)
+            else:
+                g, s, _, _ = self.twin.model(wngrid=self.twin_obs.wavenumberGrid)
+                s = np.array(s, dtype=float)
+                if inject == 'NaNAll':
+                    s[:] = np.nan
+                elif inject == 'NaNSome':
+                    s[len(s) // 2:] = np.nan
+                binned = self.twin_binner.bindown(g, s)[1]
         except InvalidModelException as e:
             return EXC_NAMES.get(type(e).__name__, 'InvalidModel'), None, None
         if any(math.isinf(float(m)) for m in binned):
             raise Machinery('oracle model gave an infinite bin (outside the generated classes)')
         z = [(float(d) - float(m)) / float(e) for d, m, e in
-             zip(self.twin_obs.spectrum, binned, self.twin_obs.errorBar) if float(m) == float(m)]
+             zip(data, binned, self.twin_obs.errorBar) if float(m) == float(m)]
         if not z:
             return 'NaNAll', None, None
         chi2 = math.fsum(v * v for v in z)
@@ -452,12 +616,14 @@ def normal_quantile(u):
     return statistics.NormalDist().inv_cdf(u)
 
 
-def record_trace(ctx, rng, tid, sampler, tmpdir, ncalls, events, pyverdicts):
-    w = RealWorld(rng, sampler, tmpdir)
+def record_trace(ctx, rng, tid, sampler, tmpdir, ncalls, events, pyverdicts, wide=None):
+    w = RealWorld(rng, sampler, tmpdir, wide=wide)
     base = dict(tid=tid, S=S)
     events.append(dict(base, ev='setup', id=len(events), kinds=w.kinds(), par=w.par_scaled(), nfit=len(w.fit),
-                       proj=w.project(w.model), sampler=sampler, cross=len(w.cross)))
-    cls0 = '%s:%s' % (sampler, w.kind)
+                       proj=w.project(w.model, w.obs), sampler=sampler, cross=len(w.cross),
+                       orole=w.roles(), d0=w.d0, off0=scaled(w.OBS_INIT['obs_offset']), sc0=scaled(w.OBS_INIT['obs_scale']),
+                       kind=w.kind, obspar=w.obspar))
+    cls0 = '%s:%s%s%s' % (sampler, w.kind, ':' + wide if wide else '', ':obs-params' if w.obspar else '')
     for c in range(ncalls):
         if rng.random() < 0.3:
             den = rng.choice([2, 4, 8, 16])
@@ -484,7 +650,9 @@ def record_trace(ctx, rng, tid, sampler, tmpdir, ncalls, events, pyverdicts):
             x = list(w.last_valid_x)                      # revisit a point after other (possibly invalid) calls
         r = rng.random()
         inject = 'raise' if r < 0.1 else 'NaNAll' if r < 0.16 else 'NaNSome' if r < 0.22 else None
-        before = w.project(w.model)
+        if w.kind == 'wide' and inject == 'NaNSome':
+            inject = None                      # defined on native indices of the clipped grid: narrow worlds only
+        before = w.project(w.model, w.obs)
         oc, z, chi2 = w.oracle(x, inject)
         w.fault.armed = inject
         try:
@@ -494,7 +662,7 @@ def record_trace(ctx, rng, tid, sampler, tmpdir, ncalls, events, pyverdicts):
         except Exception as e:   # noqa
             ret, kind, exc = float('nan'), 'raise', e
         w.fault.armed = None
-        after = w.project(w.model)
+        after = w.project(w.model, w.obs)
         big = False
         chi_obs = 0
         zs = []
@@ -507,7 +675,7 @@ def record_trace(ctx, rng, tid, sampler, tmpdir, ncalls, events, pyverdicts):
         elif kind == 'num':
             big = True
         events.append(dict(base, ev='like', id=len(events), x=[scaled(v) for v in x], before=before, after=after,
-                           oc=oc, ret=kind, chi=chi_obs, zs=zs, big=big))
+                           oc=oc, ret=kind, chi=chi_obs, zs=zs, big=big, dat8=w.data_side(x) if w.obspar else []))
         label = ('inject-%s:' % inject if inject else '') + ('valid' if oc == 'ok' else oc)
         cls = '%s:%s%s' % (cls0, label, ':cross-space' if w.cross else '')
         if exc is not None:
@@ -536,13 +704,16 @@ def run_traces(ctx, ntraces, ncalls):
     fx.register_opacities()
     events, pyv = [], []
     try:
+        fg.register_wide_opacities()
         for tid in range(ntraces):
-            record_trace(ctx, rng, tid, SAMPLERS[tid % 3], tmpdir, ncalls, events, pyv)
+            # every third group of three traces (one per sampler) lives in the wide world, layout classes in turn
+            wide = fg.LAYOUT_CLASSES[(tid // 9) % len(fg.LAYOUT_CLASSES)] if (tid // 3) % 3 == 2 else None
+            record_trace(ctx, rng, tid, SAMPLERS[tid % 3], tmpdir, ncalls, events, pyv, wide=wide)
     finally:
         shutil.rmtree(tmpdir, ignore_errors=True)
     for clause, ok, cls, detail, tid in pyv:
         ctx.verdict(clause, ok, cls=cls, detail=detail, vector=dict(kind='trace', seed=ctx.seed, tid=tid, ntraces=ntraces, ncalls=ncalls))
-    slim = [{k: v for k, v in e.items() if k not in ('sampler', 'cross')} for e in events]
+    slim = [{k: v for k, v in e.items() if k not in ('sampler', 'cross', 'kind', 'obspar')} for e in events]
     accepted, bad, res = validate_trace('Trace_Likelihood', 'Trace_Likelihood.cfg', slim)
     ctx.add_tlc('trace', res, counts=False)
     if res.postcondition_false and not bad:
@@ -569,6 +740,21 @@ def run_traces(ctx, ntraces, ncalls):
     if nall < 3 or nsome < 2 or ncross < 3:
         raise Machinery('trace generator: too few all-NaN / partially-NaN calls or cross-space traces (%d/%d/%d)'
                         % (nall, nsome, ncross))
+    # the two input classes added after the seeded changes: wide native grid, observation with fitted parameters
+    likes = [e for e in events if e['ev'] == 'like']
+    wide_ok = [e for e in likes if setups[e['tid']]['kind'] == 'wide' and e['oc'] == 'ok']
+    wide_tlc = [e for e in wide_ok if e['ret'] == 'num' and not e['big']]
+    obs_ok = [e for e in likes if setups[e['tid']]['obspar'] and e['oc'] == 'ok']
+    obs_moved_n = sum(1 for e in obs_ok if e['dat8'] != [8 * d for d in setups[e['tid']]['d0']])
+    obs_tlc = [e for e in obs_ok if e['ret'] == 'num' and not e['big']]
+    nwide = sum(1 for e in setups.values() if e['kind'] == 'wide')
+    nobs = sum(1 for e in setups.values() if e['obspar'])
+    ctx.note('real-model traces: %d in the wide world (%d valid calls, %d of them with chi2 checked by TLC), %d with a '
+             'fitted observation parameter (%d valid calls, %d with the observation moved off its initial state, %d with '
+             'chi2 checked by TLC)' % (nwide, len(wide_ok), len(wide_tlc), nobs, len(obs_ok), obs_moved_n, len(obs_tlc)))
+    if nwide < 6 or len(wide_ok) < 20 or nobs < 6 or obs_moved_n < 15:
+        raise Machinery('trace generator: too few wide-grid / observation-parameter calls (%d/%d/%d/%d)' %
+                        (nwide, len(wide_ok), nobs, obs_moved_n))
     ctx.add_sample(dict(trace_event=next(e for e in slim if e['ev'] == 'like' and e['ret'] == 'num')))
     # canaries: corrupt one field of accepted events; TLC must reject
     goodl = [e for e in slim if e['ev'] == 'like' and e['tid'] not in badt and e['ret'] == 'num' and not e['big']]
@@ -578,21 +764,80 @@ def run_traces(ctx, ntraces, ncalls):
             ctx.note('canary skipped: no accepted finite/NaN event left (violations already reported)')
             return
         raise Machinery('no event available for the canary')
-    for which in ('chi', 'written', 'finite_for_invalid'):
-        e0 = goodl[len(goodl) // 2] if which != 'finite_for_invalid' else goodn[len(goodn) // 2]
-        tr = [dict(e) for e in slim if e['tid'] == e0['tid'] and e['id'] <= e0['id']]
+    goodd = [e for e in goodl if e['dat8'] and e['oc'] == 'ok']
+    kinds = ('chi', 'written', 'finite_for_invalid', 'data')
+    if not goodd:
+        if not any(c['bad'] or c['known'] for c in ctx.clauses.values()):
+            raise Machinery('no accepted event of an observation with parameters for the data-side canary')
+        ctx.note('data-side canary skipped: no accepted event of an observation with parameters is left '
+                 '(violations already reported)')
+        kinds = kinds[:3]
+    batch = []
+    for k, which in enumerate(kinds):
+        pool = goodn if which == 'finite_for_invalid' else goodd if which == 'data' else goodl
+        e0 = pool[len(pool) // 2]
+        tr = [dict(e, tid=900000 + k) for e in slim if e['tid'] == e0['tid'] and e['id'] <= e0['id']]
         c = tr[-1]
         if which == 'chi':
             c['chi'] = c['chi'] * 2 + 4 * (sum(abs(v) for v in c['zs']) + 10)
         elif which == 'written':
             c['after'] = list(c['after'])
             c['after'][0] += 5
+        elif which == 'data':
+            c['dat8'] = list(c['dat8'])
+            c['dat8'][0] += 8              # the data side of one bin off by one unit (1e-7): e.g. a stale offset
         else:
             c['ret'] = 'num'
             c['big'] = True
-        ok2, bad2, _ = validate_trace('Trace_Likelihood', 'Trace_Likelihood.cfg', tr)
-        if ok2 or not bad2:
+        batch += tr
+    _, bad2, _ = validate_trace('Trace_Likelihood', 'Trace_Likelihood.cfg', batch)      # one TLC run for all canaries
+    rejected = {b['tid'] for b in bad2}
+    for k, which in enumerate(kinds):
+        if 900000 + k not in rejected:
             raise Machinery('canary (%s) accepted: trace validation is vacuous' % which)
+
+
+def observe_overlapping(ctx):
+    """Layouts OUTSIDE the clip window of the code (a broad bin reaching beyond [cmin - W, cmax + W], W from the centres
+    only -- e.g. two broad overlapping photometric bands): the specification refutes the clause there
+    (MC_LikeGrid_ref_anylayout.cfg).  The real code is observed on one such layout; the deviation is a finding that is
+    judged only once a known-finding entry for this class exists (see tools/reports/C06.md), otherwise it is recorded
+    in the evidence notes."""
+    from taurex.data.spectrum.array import ArraySpectrum
+    fx.register_opacities()
+    fg.register_wide_opacities()
+    model, twin = fg.make_wide_transmission(), fg.make_wide_transmission()
+    wl, wlw = fg.overlapping_layout()
+    probe = ArraySpectrum(np.stack([wl, np.zeros_like(wl), np.ones_like(wl), wlw], axis=1))
+    lo, hi = probe.wavenumberGrid - probe.binWidths / 2, probe.wavenumberGrid + probe.binWidths / 2
+    g, s, _, _ = twin.model()
+    ref = fg.overlap_mean(g, s, lo, hi)
+    err = np.array([5e-5, 5e-5])
+    obs = ArraySpectrum(np.stack([probe.rawData[:, 0], ref + err, err, probe.rawData[:, 3]], axis=1))
+    tmpdir = tempfile.mkdtemp(prefix='c06_')
+    try:
+        opt = make_optimizer('nestle', obs, model, tmpdir)
+        for name, par in list(model.fittingParameters.items()):
+            if par[5]:
+                opt.disable_fit(name)
+        opt.enable_fit('T')
+        opt.compile_params()
+        b = Bound('nestle', opt, tmpdir)
+        twin['T'] = 1250.0
+        g, s, _, _ = twin.model()
+        binned = fg.overlap_mean(g, s, lo, hi)
+        exp = fx.gauss_const(err) - math.fsum(((float(d) - float(m)) / float(e)) ** 2
+                                              for d, m, e in zip(obs.spectrum, binned, err)) / 2.0
+        ret = float(b.loglike([1250.0]))
+    finally:
+        shutil.rmtree(tmpdir, ignore_errors=True)
+    ok = close(ret, exp, rel=REL, abs_=1e-9)
+    cls = 'nestle:wide:overlapping-broad-bins'
+    detail = 'bands 0.43-0.89 and 0.6-1.0 micron, T=1250: got %r, full-grid value %r' % (ret, exp)
+    if ok or ctx.match_finding('binned_on_full_grid', cls, None) is not None:
+        ctx.verdict('binned_on_full_grid', ok, cls=cls, detail=detail, vector=dict(kind='overlap'))
+    else:
+        ctx.note('UNJUDGED FINDING (layout outside the clip window, no known-finding entry yet): ' + detail)
 
 
 # ----------------------------------------------------------------------------------------------
@@ -608,6 +853,16 @@ def run(ctx):
                    'x all unit-cube grid points, all call sequences'
                    % ('two, mixed' if q else 'two, three, mixed'),
         behaviours='TLC -simulate, depth %d, three samplers, natural + injected invalid models' % (9 if q else 12),
+        grid='native lattice of 57 points (spacing 1, 2, 3) much wider than the observation; layout families geo / rev '
+             '(contiguous, widths growing / shrinking up to 9x), gap, phot (narrow bins + one broad photometric bin beyond a '
+             'gap), two (two instruments); %s; margin rules max (code) / first / last / min / halfmax'
+             % ('2 starts x lengths 3, 5, a = 3' if q else '4 starts x lengths 3-6, a = 0, 1, 3'),
+        observation_parameters='toy world "obs": offset (lin) and scale (log) fitted on the observation, all vectors x '
+                               'fault classes x call sequences; real traces: OffsetScaleSpectrum (offset in ppm, scale), '
+                               'one or both fitted, uniform / Gaussian priors, points on a 1/8 grid',
+        wide_traces='a third of the real-model traces: CO2 + CO on an 800-point constant-R native grid 0.3-25 micron, '
+                    'observations: constant R 8-20 over 0.4-12 micron, the same with gaps, R 30-45 spectrograph + 1-3 '
+                    'broad photometric bands, two instruments (R 30-40 and R 5-7); heteroscedastic errors',
         traces='real TransmissionModel (isothermal / N-point; H2O, CH4), 3-8 random bins, 1-4 fitted parameters, '
                'Uniform/LogUniform/Gaussian/LogGaussian priors (default, same space as the mode, other space), points on '
                'a 1/8 grid; invalid: mixing ratio >= 1, inverted nodes, T <= 0 / negative radius (all-NaN spectrum), '
@@ -619,29 +874,74 @@ def run(ctx):
         'toy ForwardModel and fault-injecting contribution are harness fixtures',
         'oracle of the real-model traces: a second model instance driven through model[param] = value, '
         'a second FluxBinner of the same observation, math.fsum / math.log; statistics.NormalDist for Gaussian priors',
-        'FluxBinner itself is the subject of C05, not of this check']
-    ctx.check_spec('exhaustive-two', 'MC_Likelihood', 'MC_Likelihood_quick.cfg', need_actions=('PriorCall', 'LogLike'))
-    ctx.check_spec('exhaustive-mixed', 'MC_Likelihood', 'MC_Likelihood_mixed.cfg', need_actions=('PriorCall', 'LogLike'))
+        'FluxBinner itself is the subject of C05, not of this check',
+        'native bins are centred on the native points with the mid-point width (FluxBinner convention, Grid.tla of C13); '
+        'observations report their bins in ascending wavenumber (as ArraySpectrum / ObservedSpectrum do)',
+        'layouts whose bins reach outside the window [cmin - W, cmax + W] of clip_native_to_wngrid (W: widest mid-point '
+        'width of the centres) are not judged: refuted at design level, observed on the code, reported as a finding',
+        'an observation parameter that changes errorBar (not spectrum) is outside the generated classes']
+    # The design-level TLC runs do not depend on the implementation: they run in two background threads (TLC is a
+    # subprocess) while this thread drives the real code; their verdicts (Machinery on a violated design invariant, a
+    # vacuous action or a missing expected counterexample) are collected at the end.
+    import threading
+    from concurrent.futures import ThreadPoolExecutor
+    lock, add_tlc = threading.Lock(), ctx.add_tlc
+
+    def locked_add_tlc(*a, **k):
+        with lock:
+            return add_tlc(*a, **k)
+    ctx.add_tlc = locked_add_tlc
+    acts = dict(need_actions=('PriorCall', 'LogLike'))
+    design = [
+        (ctx.check_spec, ('exhaustive-two', 'MC_Likelihood', 'MC_Likelihood_quick.cfg'), acts),
+        (ctx.check_spec, ('exhaustive-mixed', 'MC_Likelihood', 'MC_Likelihood_mixed.cfg'), acts),
+        # the observation carries fitted parameters (offset, scale): the data side of chi2 follows the vector of THIS call
+        (ctx.check_spec, ('exhaustive-obs', 'MC_Likelihood', 'MC_Likelihood_obs.cfg'), acts),
+        # non-vacuity of the clauses / design-level finding L-C06 (as-built mechanism)
+        (ctx.expect_refuted, ('asbuilt-chi2-zero', 'MC_Likelihood', 'MC_Likelihood_asbuilt.cfg', 'ValidEqualsGaussian'), {}),
+        (ctx.expect_refuted, ('narrow-except', 'MC_Likelihood', 'MC_Likelihood_narrow.cfg', 'NeverRaises'), {}),
+        # update_model exponentiating by the parameter's mode instead of applying prior.prior (priors in the other space)
+        (ctx.expect_refuted, ('write-by-parameter-mode', 'MC_Likelihood', 'MC_Likelihood_bymode.cfg', 'WrittenIsPriorOfX'), {}),
+        # a model that is NaN in every bin scored as chi2 = 0
+        (ctx.expect_refuted, ('all-nan-scored-zero', 'MC_Likelihood', 'MC_Likelihood_allnan.cfg', 'InvalidNeverFinite'), {}),
+        # chi2 against a copy of the observed spectrum captured when compute_fit starts / read before update_model
+        (ctx.expect_refuted, ('observation-frozen-copy', 'MC_Likelihood', 'MC_Likelihood_obsfrozen.cfg',
+                              'ValidEqualsGaussian'), {}),
+        (ctx.expect_refuted, ('observation-one-call-late', 'MC_Likelihood', 'MC_Likelihood_obslag.cfg',
+                              'ValidEqualsGaussian'), {}),
+        # native grid much wider than the observation: margin of the clip taken from the first bin (not the widest)
+        (ctx.expect_refuted, ('clip-margin-of-first-bin', 'MC_LikeGrid', 'MC_LikeGrid_ref_first.cfg',
+                              'LikelihoodOfFullGrid'), {}),
+        # design-level finding: a broad bin reaching beyond the window computed from the centres (overlapping bins)
+        (ctx.expect_refuted, ('any-layout-overlapping-broad-bins', 'MC_LikeGrid', 'MC_LikeGrid_ref_anylayout.cfg',
+                              'LikelihoodOfFullGrid'), {}),
+    ]
     if not q:
-        ctx.check_spec('exhaustive-three', 'MC_Likelihood', 'MC_Likelihood_thorough.cfg',
-                       need_actions=('PriorCall', 'LogLike'))
-    # the observation carries fitted parameters (offset, scale): the data side of chi2 follows the vector of THIS call
-    ctx.check_spec('exhaustive-obs', 'MC_Likelihood', 'MC_Likelihood_obs.cfg', need_actions=('PriorCall', 'LogLike'))
+        design.insert(2, (ctx.check_spec, ('exhaustive-three', 'MC_Likelihood', 'MC_Likelihood_thorough.cfg'), acts))
+        for rule in ('last', 'min', 'halfmax'):
+            design.append((ctx.expect_refuted, ('clip-margin-%s' % rule, 'MC_LikeGrid', 'MC_LikeGrid_ref_%s.cfg' % rule,
+                                                'LikelihoodOfFullGrid'), {}))
+        design.append((ctx.expect_refuted, ('layouts-with-widths-varying-2x', 'MC_LikeGrid', 'MC_LikeGrid_ref_nogrowth.cfg',
+                                            'NoGrowth'), {}))
+    pool = ThreadPoolExecutor(max_workers=2)
+    futures = [pool.submit(f, *a, **k) for f, a, k in design]
+    try:
+        # observation layouts on a native grid much wider than the observation: clipping contract + exported vectors
+        run_grid_vectors(ctx, 'MC_LikeGrid_quick.cfg' if q else 'MC_LikeGrid_thorough.cfg')
+        n = run_behaviours(ctx, 30 if q else 300, 9 if q else 12,
+                           ('two', 'mixed', 'obs') if q else ('two', 'three', 'mixed', 'obs'))
+        ctx.note('replayed %d simulated behaviours' % n)
+        run_traces(ctx, 45 if q else 600, 14 if q else 20)
+        observe_overlapping(ctx)
+    except BaseException:
+        for f in futures:
+            f.cancel()
+        raise
+    finally:
+        pool.shutdown(wait=True)
+    for f in futures:
+        f.result()                   # re-raises Machinery of a design-level run
     ctx.exhaustive = True
-    # non-vacuity of the clauses / design-level finding L-C06 (as-built mechanism)
-    ctx.expect_refuted('asbuilt-chi2-zero', 'MC_Likelihood', 'MC_Likelihood_asbuilt.cfg', 'ValidEqualsGaussian')
-    ctx.expect_refuted('narrow-except', 'MC_Likelihood', 'MC_Likelihood_narrow.cfg', 'NeverRaises')
-    # update_model exponentiating by the parameter's mode instead of applying prior.prior (priors in the other space)
-    ctx.expect_refuted('write-by-parameter-mode', 'MC_Likelihood', 'MC_Likelihood_bymode.cfg', 'WrittenIsPriorOfX')
-    # a model that is NaN in every bin scored as chi2 = 0
-    ctx.expect_refuted('all-nan-scored-zero', 'MC_Likelihood', 'MC_Likelihood_allnan.cfg', 'InvalidNeverFinite')
-    # chi2 against a copy of the observed spectrum captured when compute_fit starts / read before update_model
-    ctx.expect_refuted('observation-frozen-copy', 'MC_Likelihood', 'MC_Likelihood_obsfrozen.cfg', 'ValidEqualsGaussian')
-    ctx.expect_refuted('observation-one-call-late', 'MC_Likelihood', 'MC_Likelihood_obslag.cfg', 'ValidEqualsGaussian')
-    n = run_behaviours(ctx, 30 if q else 300, 9 if q else 12,
-                       ('two', 'mixed', 'obs') if q else ('two', 'three', 'mixed', 'obs'))
-    ctx.note('replayed %d simulated behaviours' % n)
-    run_traces(ctx, 45 if q else 600, 14 if q else 20)
 
 
 def replay(ctx, violations):
@@ -659,6 +959,12 @@ def replay(ctx, violations):
                 replay_behaviour(ctx, vec['sampler'], dict(layout=vec['layout'], hist=vec['hist']), tmpdir)
             finally:
                 shutil.rmtree(tmpdir, ignore_errors=True)
+        elif vec.get('kind') == 'grid':
+            key = ('grid', vec['cfg'])
+            if key in seen:
+                continue
+            seen.add(key)
+            run_grid_vectors(ctx, vec['cfg'])
         elif vec.get('kind') == 'trace':
             key = ('trace', vec['seed'])
             if key in seen:
